@@ -30,6 +30,7 @@ type SolverStats struct {
 	Queries, NSat, NUnsat, NUnknown int
 	Time                            time.Duration
 	Restarts                        int
+	NLSat                           int // queries decided by the qfnra-nlsat tactic
 }
 
 type Solver struct {
@@ -43,6 +44,7 @@ type Solver struct {
 	Stats     SolverStats
 	log       io.Writer
 	nq        int
+	z3        bool
 }
 
 func NewSolver(tt *TermTable, bin string, timeoutMs int) (*Solver, error) {
@@ -52,6 +54,7 @@ func NewSolver(tt *TermTable, bin string, timeoutMs int) (*Solver, error) {
 		s.cmdline = []string{bin, "--incremental", "--produce-models", "--lang=smt2", fmt.Sprintf("--tlimit-per=%d", timeoutMs)}
 	default:
 		s.cmdline = []string{bin, "-in", "-smt2"}
+		s.z3 = true
 	}
 	if err := s.start(); err != nil {
 		return nil, err
@@ -185,9 +188,35 @@ func (s *Solver) Check(asserts []*Term, wantModel bool) (Result, map[string]stri
 	for _, a := range asserts {
 		fmt.Fprintf(&sb, "(assert %s)\n", s.pr.ref(a))
 	}
-	sb.WriteString("(check-sat)\n")
+	// Non-linear real arithmetic: z3's incremental core (what a plain check-sat uses after push)
+	// gives up on polynomial queries that its nlsat tactic decides in milliseconds; ask the
+	// tactic first and fall back to the plain check when it cannot handle the goal.
+	nl := s.tt.nlReal && s.z3 && os.Getenv("VERIF_NLSAT") != "0"
+	if nl {
+		fmt.Fprintf(&sb, "(check-sat-using (try-for (then simplify qfnra-nlsat) %d))\n(echo \"@nl\")\n", s.timeoutMs)
+	} else {
+		sb.WriteString("(check-sat)\n")
+	}
 	s.send(sb.String())
 	ans, err := s.readAnswerTimed()
+	if nl && err == nil {
+		// everything up to the echo marker belongs to the tactic's answer
+		tactic := ""
+		for err == nil && strings.Trim(strings.TrimSpace(ans), "\"") != "@nl" {
+			tactic += " " + strings.TrimSpace(ans)
+			ans, err = s.readAnswerTimed()
+		}
+		tactic = strings.TrimSpace(tactic)
+		if err == nil {
+			if tactic == "sat" || tactic == "unsat" {
+				s.Stats.NLSat++
+				ans = tactic
+			} else {
+				s.send("(check-sat)\n")
+				ans, err = s.readAnswerTimed()
+			}
+		}
+	}
 	if dir := os.Getenv("VERIF_SLOWDIR"); dir != "" && time.Since(t0) > 5*time.Second {
 		// debugging aid: keep the text of slow queries (definitions sent earlier are not included)
 		// self-contained text: all definitions the assertions depend on
